@@ -41,8 +41,15 @@ func (eng *Engine) verifyContract(ct *Contract) (res *FuncResult) {
 		res.Obls = vc.obls
 		return
 	}
+	callsOnly := false
 	if ct.Trusted {
-		return
+		if len(ct.Calls) == 0 {
+			return
+		}
+		// a trusted contract (its frame and postconditions are assumed) may still
+		// carry call-site obligations: the body is executed for those alone
+		callsOnly = true
+		vc.noSafety = true
 	}
 	if ct.NoSafety {
 		vc.noSafety = true
@@ -140,7 +147,7 @@ func (eng *Engine) verifyContract(ct *Contract) (res *FuncResult) {
 	_ = entry
 	_ = results
 	_ = out
-	if retReach != "false" {
+	if retReach != "false" && !callsOnly {
 		for k, cl := range ct.Ensures {
 			if len(cl.Props) > 0 && eng.curProp != "" && eng.curProp != "all" {
 				found := false
